@@ -15,4 +15,8 @@ var harnesses = map[string]func(){
 	"C18NoInput":      C18NoInput,
 	"C18Generate":     C18Generate,
 	"C15Run":          C15Run,
+	"C19PatternMatcher":     C19PatternMatcher,
+	"C19PatternMatcherDeep": C19PatternMatcherDeep,
+	"C19ShouldSkip":         C19ShouldSkip,
+	"C19IdentMatchers":      C19IdentMatchers,
 }
